@@ -392,7 +392,40 @@ def labeldom(ctx: Any) -> List[Ob]:
     byte.  A strict parser accepts 63-byte labels, so narrowing the label arm loses valid datagrams."""
     from .c01 import decoder_label_domain
 
-    return decoder_label_domain(ctx, 'C02.LABELDOM')
+    obs = decoder_label_domain(ctx, 'C02.LABELDOM')
+    # NSEC type bitmaps (RFC 4034 4.1.2): every window number 0..255 and every block length 1..32 is legal; a test on
+    # those bytes whose arm rejects must not reject a legal value (the record would silently vanish from a valid message)
+    prog = ctx.prog
+    rb = prog.func(INC + '._read_bitmap')
+    cfg = cfg_of(rb.node)
+    byte_locals: Dict[str, ast.AST] = {}
+    for st in walk_local_ordered(rb.node):
+        if isinstance(st, ast.Assign) and isinstance(st.targets[0], ast.Name) and isinstance(st.value, ast.Subscript) and not isinstance(st.value.slice, ast.Slice):
+            byte_locals[st.targets[0].id] = st.value
+    adv = [st for st in walk_local_ordered(rb.node) if isinstance(st, ast.AugAssign) and self_attr(st.target, rb.params[0]) == 'offset']
+    length_l = next((n for n in byte_locals if adv and any(isinstance(x, ast.Name) and x.id == n for x in ast.walk(adv[0].value))), None)
+    if length_l is None:
+        raise AnalysisError('anchor vanished: the block-length byte of the NSEC bitmap reader')
+    domains = {n: ([1, 2, 16, 31, 32] if n == length_l else [0, 1, 255]) for n in byte_locals}
+    n_tests = 0
+    bad = []
+    for t in cfg.nodes:
+        if t.kind != 'test':
+            continue
+        names = {x.id for x in ast.walk(t.ast) if isinstance(x, ast.Name)} & set(byte_locals)
+        if len(names) != 1:
+            continue
+        nm = names.pop()
+        rej = {lab for s_, lab in t.succ if s_.kind == 'raise' or (s_.kind == 'return')}
+        if not rej:
+            continue
+        n_tests += 1
+        for v in domains[nm]:
+            r = fd.Evaluator(prog, rb.module, {nm: v}).ev(t.ast)
+            if r is not fd.UNKNOWN and bool(r) in rej:
+                bad.append(f'line {t.line}: `{norm(t.ast)[:60]}` rejects {nm} = {v}')
+    obs.append(ob('C02.LABELDOM', rb, f'{n_tests} rejecting test(s) on the window / block-length bytes', 'every NSEC window number 0..255 and block length 1..32 is read (no legal value is rejected)', not bad, '; '.join(bad[:3])))
+    return obs
 
 
 @rule('C02.STATELESS', 'N', expect_min=10)
